@@ -412,6 +412,9 @@ compile:
 	task.Status.Print(m.Addr)
 	if err := g.Wait(); err != nil {
 		task.Errorf("failed to commit combiner: %v", err)
+		// The failure is that of the machines holding the dependencies'
+		// combiners, not of m, so we do not report it against m.
+		m.Done(procs, nil)
 		return
 	}
 
